@@ -11,6 +11,14 @@
      func_wf f  - the parameter list has the declared arity; a parameter's Type_Info and form belong together
      body_ok E  - the known caveat: callee bodies never themselves throw bad_boxed_cast / arity_error / guard_error
                   (dispatch cannot tell those from "did not match") *)
+(* Rules the oracle (DispatchSpecRun.spec_d, independent of gen/) applies in addition and that are NOT theorems here:
+     - "an exactly matching overload exists => one is entered" (the strong half of C06_exact_preferred);
+     - ERRS: a call fails only with dispatch_error / bad_boxed_cast / arity_error / guard_error (eval_error from a script),
+       std::runtime_error for a null object, or the entered body's own exception - no internal exception escapes;
+     - PREF: within an overload set whose members all have the same parameter types up to const and form, an exactly matching
+       overload with less const parameters is entered first (function_less_than's const rule; across types the comparator is
+       not a strict weak order and nothing is claimed);
+     - two-step histories: after a std::shared_ptr<T>& callee re-seated a variable, the case is judged for the object it holds now. *)
 From Coq Require Import ZArith List Bool.
 From ChaiV Require Import DispatchDefs DispatchProofs DispatchTheorems.
 From ChaiV.Gen Require Import G_CastRules.
